@@ -116,7 +116,22 @@ def run(chk):
                 in_use -= sizes[d]
                 lines_.append("destroy o%d;" % d)
                 ops.append("x,%d" % d)
-        bprogs.append((qobjgen.CLASSES + "function main() -> void {\n    " + "\n    ".join(lines_) + "\n}", ";".join(ops)))
+        # qubits held by static fields are allocated while the static initialisers run, before main (classes by name, fields
+        # in declaration order): they are handles like any other and must not share an index with main's
+        statics = ""
+        if chk.rng.random() < 0.5:
+            pre_l, pre_o = [], []
+            if chk.rng.random() < 0.7:
+                statics += "static class SQA { public static qubit sq; public static function flip() -> void { x(sq); } }\n"
+                pre_l.append("SQA.flip();")
+                pre_o.append("d,1")
+            if chk.rng.random() < 0.6:
+                statics += "static class SQB { public static qubit sa; public static qubit sb; }\n"
+                pre_l.append("x(SQB.sa); x(SQB.sb);")
+                pre_o.append("d,2")
+            lines_ = pre_l + lines_
+            ops = pre_o + ops
+        bprogs.append((qobjgen.CLASSES + statics + "function main() -> void {\n    " + "\n    ".join(lines_) + "\n}", ";".join(ops)))
     import evallib as _ev2
     _l, bimpl, _m, _i = _ev2.run_programs([(src, [0.9] * 300) for src, _o in bprogs], with_model=False)
     bmodel = _driver(["book " + o for _s, o in bprogs])[0]
